@@ -714,6 +714,21 @@ def run(ctx):
            'single line from io.StringIO (reader normalises line ends itself: %s)'
            % (len(text_mode_opens), normalises), imod, ofr)
 
+    # ... nor may the path route decode differently from the text stream a
+    # caller gets from the same file: any encoding=/errors= argument (e.g.
+    # 'utf-8-sig', which strips a byte-order mark) is applied to paths only,
+    # because a stream arrives decoded
+    openers = [c for c in calls_in(ofr, nested=False)
+               if (call_name(c) or '').split('.')[-1] in ('open', 'TextIOWrapper')]
+    private = [c for c in openers
+               if any(k.arg in ('encoding', 'errors') or k.arg is None for k in c.keywords)
+               or len(c.args) > (2 if call_name(c) == 'open' else 1)]
+    ctx.ob('C03.R4', 'stream-and-path:same-decoding', bool(openers) and (not stream_as_is or not private),
+           'the path route opens the file with the default text decoding only (%d opening calls, %d '
+           'with a decoding argument of their own), as a stream of the same file is: a decoding step '
+           'only one route has (a stripped byte-order mark, replaced bytes) changes the first record '
+           'for one of them' % (len(openers), len(private)), imod, private[0] if private else ofr)
+
     # options are shared by all inputs of one invocation
     common.check_options_readonly(ctx, 'C03.R1', prog)
 
